@@ -7,7 +7,7 @@ from typing import AbstractSet, Iterable, Any
 import numpy as np
 
 # pylint: disable=cyclic-import
-from .epsilon_nfa import to_single_state
+from .epsilon_nfa import to_distinct_single_state
 from .finite_automaton import to_state, to_symbol
 from .hopcroft_processing_list import HopcroftProcessingList
 # pylint: disable=cyclic-import
@@ -332,11 +332,12 @@ class DeterministicFiniteAutomaton(NondeterministicFiniteAutomaton):
         groups = partition.get_groups()
         # Create a state for this
         to_new_states = {}
+        taken = set()
         for group in groups:
             if None in group:
                 # States equivalent to the trash node accept nothing
                 continue
-            new_state = to_single_state(group)
+            new_state = to_distinct_single_state(group, taken)
             for state in group:
                 to_new_states[state] = new_state
         # Build the DFA
